@@ -737,7 +737,7 @@ func c05TrialsFor(ev Event, rng *rand.Rand, tier string) []c05Trial {
 func c05FaultSuite(r *Result, rng *rand.Rand, tier string) {
 	graphs := 6
 	if tier == "thorough" {
-		graphs = 90
+		graphs = 45
 	} else if tier == "search" {
 		graphs = 10
 	}
